@@ -49,6 +49,7 @@ type c19case struct {
 	Src       string `json:"src"`
 	AnyPort   bool   `json:"anyPort"`
 	FirstSeen bool   `json:"firstSeen"`
+	Wild      bool   `json:"wild"`  // dgram/server: the server listens on wildcard (dual-stack) sockets
 	Early     bool   `json:"early"` // steal/conn: the intruder connection used the session id (OPTIONS) before streaming began
 	Proto     string `json:"proto"`
 	How       string `json:"how"`
@@ -647,7 +648,7 @@ func c19dgramServer(c *c19case, js string, s *vt.Sink, seed int64) error {
 		}
 	}()
 	rng := rand.New(rand.NewSource(seed))
-	bd, err := bed.Start(bed.ServerCfg{UDP: true})
+	bd, err := bed.Start(bed.ServerCfg{UDP: true, Wildcard: c.Wild})
 	if err != nil {
 		return err
 	}
